@@ -38,8 +38,9 @@ impl<'a> Reader<'a> {
 }
 
 pub fn motif(r: &mut Reader) -> Motif {
-    match r.below(16) {
+    match r.below(17) {
         0 => Motif::None,
+        15 => Motif::PromoGlut { black: r.bool(), kind_sel: r.below(4), count: r.below(5), squares: { let mut k = [0u8; 12]; for x in k.iter_mut() { *x = r.u8(); } k }, pawn_files: { let n = 1 + r.below(3); (0..n).map(|_| r.below(8)).collect() }, enemy_k: r.u8() },
         14 => Motif::Dense { phases: r.u8(), kinds: { let mut k = [0u8; 32]; for x in k.iter_mut() { *x = r.u8(); } k }, drop: r.below(3), rich: r.bool() },
         13 => Motif::SliderSwarm { black: r.bool(), corner: r.below(4), file_n: r.below(5), rank_n: r.below(5), diag_n: r.below(3), diag_queen_far: r.bool() },
         12 => Motif::CastleMate { black: r.bool(), long: r.bool(), variant: r.below(4) },
